@@ -28,7 +28,7 @@ static Case gen_compress_case(uint64_t seed, int tier, const char *prop, bool bo
 struct C02 : Driver {
   const char *prop() const override { return "C02"; }
   const char *level() const override { return "exploration"; }
-  uint64_t ncases(int tier) const override { return tier ? 30000 : 1600; }
+  uint64_t ncases(int tier) const override { return tier ? 250000 : 24000; }
   std::string rule() const override {
     return "case = (generated input, level 1-9, mode, -n, schedule, I/O fragmentation) compressed in the simulator; the output is parsed bit by bit by the independent strict inspector "
            "(header digit = level, no randomised block, every block <= level*100000 run-length-encoded bytes, primary index inside, 2-6 tables all complete incl. unused ones, lengths 1-20, <= 18002 selectors, "
@@ -67,7 +67,7 @@ static Registrar r02(new C02);
 struct C04 : Driver {
   const char *prop() const override { return "C04"; }
   const char *level() const override { return "exploration"; }
-  uint64_t ncases(int tier) const override { return tier ? 40000 : 2400; }
+  uint64_t ncases(int tier) const override { return tier ? 80000 : 6000; }
   std::string rule() const override {
     return "case = boundary-biased input (run structures whose run-length-encoded size lands on capacity-3..capacity+3, runs straddling chunk boundaries, runs around 4/255/259) compressed at level L in default or --sequential mode, -n 1..8, seeded schedule; "
            "each block of the output is decoded separately by the reference decoder, which yields the input offsets where blocks end and each block's run-length-encoded size; oracle: offsets equal the 40-line greedy packing model "
@@ -209,7 +209,7 @@ static DecRun run_dec(const RunCfg &cfg, const Bytes &z, size_t out_hint, Ctx &c
 struct C05 : Driver {
   const char *prop() const override { return "C05"; }
   const char *level() const override { return "exploration"; }
-  uint64_t ncases(int tier) const override { return tier ? 150000 : 9000; }
+  uint64_t ncases(int tier) const override { return tier ? 500000 : 40000; }
   std::string rule() const override {
     return "case = one byte string (structured streams from a generator that exposes every degree of freedom, with one planted defect per field kind: delta step leaving 1-20 upwards/downwards/at the start value, selector = table count, "
            "zero selectors, 1 or 7 tables, empty bitmap, primary index = or > block size, missing end-of-block, wrong block/stream CRC, bad magic, used/unused incomplete or oversubscribed tables, missing run length, block one to three bytes over its declared size; "
@@ -253,7 +253,7 @@ static Registrar r05(new C05);
 struct C06 : Driver {
   const char *prop() const override { return "C06"; }
   const char *level() const override { return "exploration"; }
-  uint64_t ncases(int tier) const override { return tier ? 120000 : 8000; }
+  uint64_t ncases(int tier) const override { return tier ? 300000 : 24000; }
   std::string rule() const override {
     return "case = one valid file: generated streams varying every legal degree of freedom (2-6 arbitrary complete tables incl. 20-bit codes, arbitrary selector sequences, surplus selectors up to 32767, zig-zag delta paths touching 1 and 20, "
            "any legal start length, randomised blocks, unused incomplete/oversubscribed tables, extra in-use symbols, blocks at any bit offset, 1-3 concatenated streams with different levels, empty streams, trailing data that does not start with a full header) "
@@ -303,9 +303,9 @@ static Registrar r06(new C06);
 struct C07 : Driver {
   const char *prop() const override { return "C07"; }
   const char *level() const override { return "fault_enumeration"; }
-  uint64_t ncases(int tier) const override { return tier ? 60000 : 4000; }
+  uint64_t ncases(int tier) const override { return tier ? 150000 : 12000; }
   bool exhaustive() const override { return true; }
-  std::string exhaustive_note() const override { return "every truncation length 0..len-1 of each listed small valid multi-block/multi-stream file (about 1 in 125 cases: ~32 files quick, ~400 thorough), each under 3 schedules x 2 input block sizes; corruptions and configurations are sampled"; }
+  std::string exhaustive_note() const override { return "every truncation length 0..len-1 of each listed small valid multi-block/multi-stream file (about 1 in 125 cases: ~96 files quick, ~1000 thorough), each under 3 schedules x 2 input block sizes; corruptions and configurations are sampled"; }
   std::string rule() const override {
     return "two case kinds. (a) storage faults enumerated: a small valid file (<= ~1.5 KB, 1-3 streams, several blocks) is cut at EVERY length and each prefix is decompressed under 3 seeded configurations alternating default and tiny input blocks, so end-of-file meets the zero padding at every alignment. "
            "(b) sampled: structurally defective, mutated, truncated, empty, header-only and garbage inputs in 2 random configurations incl. FILE operands. oracle for inputs the reference decoder rejects: exit status exactly 1, diagnostic on stderr, no deadlock / step-budget overrun / assertion / death by signal, "
@@ -390,7 +390,7 @@ static Registrar r07(new C07);
 struct C10 : Driver {
   const char *prop() const override { return "C10"; }
   const char *level() const override { return "exploration"; }
-  uint64_t ncases(int tier) const override { return tier ? 100000 : 6000; }
+  uint64_t ncases(int tier) const override { return tier ? 800000 : 60000; }
   std::string rule() const override {
     return "case = a file with planted copies of the 48-bit block-header pattern: (0) pattern + 32 arbitrary bits spelled as legal symbols inside Huffman-coded data (flat 8-bit tables make every byte string a legal symbol sequence), "
            "(1) complete decodable inner blocks inside coded data, (2) pattern or complete blocks (with/without end-of-stream) in ignored trailing data, (3) the same inside files that are invalid further on (bad CRC, primary index, truncation); "
@@ -444,9 +444,9 @@ static Registrar r10(new C10);
 struct C15 : Driver {
   const char *prop() const override { return "C15"; }
   const char *level() const override { return "fault_enumeration"; }
-  uint64_t ncases(int tier) const override { return tier ? 64 : 16; }
+  uint64_t ncases(int tier) const override { return tier ? 800 : 96; }
   bool exhaustive() const override { return true; }
-  std::string exhaustive_note() const override { return "every bit of every stored block CRC and stream CRC of each corpus file (16 files quick, 64 thorough; 1-6 blocks x 1-3 streams); worker counts {1,2,4} all run; schedules and input block sizes sampled per mutant"; }
+  std::string exhaustive_note() const override { return "every bit of every stored block CRC and stream CRC of each corpus file (96 files quick, 800 thorough; 1-6 blocks x 1-3 streams); worker counts {1,2,4} all run; schedules and input block sizes sampled per mutant"; }
   std::string rule() const override {
     return "case = one generated valid file with 1-3 streams and 1-6 small blocks per stream (field bit positions known from the generator and confirmed by the reference decoder); EVERY bit of EVERY stored block CRC and stream CRC is flipped, one at a time, "
            "and each mutant is decompressed with -n 1, 2 and 4 under 2 seeded schedules (thorough: 3 input block sizes), so the damaged block is first, middle, last, in a later stream, found by the scanner or only by the parser; oracle: exit status exactly 1 (and no deadlock/abort). "
